@@ -689,3 +689,43 @@ mod tests {
         }
     }
 }
+
+/// Verification hooks: state construction and inspection for [`KBucket`].
+#[cfg(libp2p_verif)]
+impl<TKey, TVal> KBucket<TKey, TVal> {
+    pub(crate) fn verif_from_parts(
+        nodes: Vec<Node<TKey, TVal>>,
+        capacity: usize,
+        first_connected_pos: Option<usize>,
+        pending: Option<(Node<TKey, TVal>, NodeStatus, Instant)>,
+        pending_timeout: Duration,
+    ) -> Self {
+        KBucket {
+            nodes,
+            capacity,
+            first_connected_pos,
+            pending: pending.map(|(node, status, replace)| PendingNode {
+                node,
+                status,
+                replace,
+            }),
+            pending_timeout,
+        }
+    }
+
+    pub(crate) fn verif_first_connected_pos(&self) -> Option<usize> {
+        self.first_connected_pos
+    }
+
+    pub(crate) fn verif_node_at(&self, pos: usize) -> Option<&Node<TKey, TVal>> {
+        self.nodes.get(pos)
+    }
+
+    pub(crate) fn verif_pending_parts(&self) -> Option<(&Node<TKey, TVal>, NodeStatus, Instant)> {
+        self.pending.as_ref().map(|p| (&p.node, p.status, p.replace))
+    }
+
+    pub(crate) fn verif_capacity(&self) -> usize {
+        self.capacity
+    }
+}
